@@ -200,7 +200,7 @@ def expected_counts(cfg):
     want = Counter()
     for steps in cfg['scripts']:
         for st in steps:
-            if st[0] in ('info', 'warn', 'print', 'infochild'):
+            if st[0] in ('info', 'warn', 'print', 'infochild', 'infobig'):
                 want[st[1]] += 1
             elif st[0] in ('out', 'err') and st[1].strip() != '':
                 want[st[1]] += 1
@@ -275,6 +275,11 @@ def run(prop, report, tier, seed, replay=None):
             if i % 4 == 1:
                 t = cfg['order'][-1]
                 cfg['scripts'][t] = [['info', f'H{t}-{k:04d}'] for k in range(rng.choice([150, 400, 900]))]
+                cfg['heavy'] = t
+            elif i % 4 == 3 or (tier == 'quick' and i == 2):
+                # ... or a burst of large records (more than any pipe buffer holds) as its last action
+                t = cfg['order'][-1]
+                cfg['scripts'][t] = cfg['scripts'][t][:2] + [['infobig', f'B{t}-{k:04d}'] for k in range(rng.choice([40, 80]))]
                 cfg['heavy'] = t
     for cfg in cfgs:
         msgs, late = run_real(cfg)
